@@ -102,18 +102,16 @@ def kf_models():
     return out
 
 
-UNI = list("abcXYZ019 _-.,;:!?()[]{}#%&<>\"'+=*/\\^~|@$") + ["é", "ß", "Ж", "日", "本", "　",
-                                                               "\U0001F600", "\n", "\t", " ", " "]
-SHEETCH = list("abcXYZ019 _-.,;!()#%&<>\"'+=~@$") + ["é", "日", "\U0001F600"]
+UNI = list("abcXYZ019 _-.,;:!?()[]{}#%&<>\"'+=*/\\^~|@$") + ["\u00e9", "\u00df", "\u0416", "\u65e5", "\u672c", "\u3000",
+                                                               "\U0001F600", "\n", "\t", "\u00a0", "\u2028"]
+SHEETCH = list("abcXYZ019 _-.,;!()#%&<>\"'+=~@$") + ["\u00e9", "\u65e5", "\U0001F600"]
 
 
 def rtext(rng, n=None, pool=UNI, pad=False):
     n = rng.randint(1, 12) if n is None else n
     s = "".join(rng.choice(pool) for _ in range(n))
     if not pad:
-        s = s.strip(" \t\r\n 　 ")
-        # a text that the reader's type guessing could read as something else stays a *string* in every
-        # string-typed encoding except a plain inline string (C03-KF3 has its own deterministic cases)
+        s = s.strip(" \t\r\n\u00a0\u3000\u2028")
     return s or "x"
 
 
@@ -173,7 +171,7 @@ def random_models(rng, count):
                     cells.append(cell(r, c, "e", rng.choice(["#NULL!", "#DIV/0!", "#VALUE!", "#REF!", "#NAME?", "#NUM!", "#N/A"]), s=s))
                 elif u < 0.93:
                     v = rnum(rng)
-                    txt = c09.render([t for t in c09.random_formula(rng, depth=rng.randint(1, 4), allow=()) if True])
+                    txt = c09.render(c09.random_formula(rng, depth=rng.randint(1, 4), allow=()))
                     cells.append(cell(r, c, "", v, fbits(v), s=s, f=dict(F0, k="normal", ht=True, text=txt.strip(" ") or "1")))
                 else:
                     cells.append(cell(r, c, "", None, s=rng.choice([1, 2, 3])))
@@ -225,7 +223,7 @@ def random_models(rng, count):
             continue
         names = []
         if rng.random() < 0.4:
-            names = [{"name": rng.choice(["N_1", "café", "日本", "x.y", "_a\\b"]), "text": "$A$1", "local": rng.choice([-1, 0])}]
+            names = [{"name": rng.choice(["N_1", "caf\u00e9", "\u65e5\u672c", "x.y", "_a\\b"]), "text": "$A$1", "local": rng.choice([-1, 0])}]
         opts = {"spans": rng.random() < 0.5, "dim": rng.random() < 0.5, "tn": rng.random() < 0.5,
                 "ent": rng.choice(["named", "numeric"]), "spall": rng.random() < 0.3, "applynf": rng.choice(["1", "absent"])}
         m = {"sheets": sheets, "sst": sst, "xfs": list(XFS), "names": names, "opts": dict(OPT_DEFAULT, **opts)}
